@@ -20,7 +20,8 @@
      * C19_refute_sound   : not single-peaked or not single-crossing (sibling deciders sp_decide / sc_decide,
                             proved exact in Proofs/SP.v, Proofs/SC.v)  ==>  no embedding exists, so the only
                             correct answer is False (negative oracle);
-     * Euclidean_perm     : the specification does not depend on the storage order of the ballots.
+     * Euclidean_perm, Euclidean_relabel_iff : the specification does not depend on the storage order of the
+                            ballots nor on a bijective renaming of the alternatives;
      * eucl_decide_correct (stretch goal, reached): eucl_decide — for every axis on which the profile is
                             single-peaked, Fourier-Motzkin elimination (fuel-free, recursion on the number of
                             variables, fm_feasible_correct: sound AND complete over Q) of the strict linear system
@@ -124,6 +125,12 @@ Theorem Euclidean_perm : forall profile profile',
   Permutation profile profile' -> Euclidean profile -> Euclidean profile'.
 Proof. exact Proofs.Euclid.Euclidean_perm. Qed.
 Print Assumptions Euclidean_perm.
+
+(* ---- relabeling (C15): a bijective renaming of the alternatives does not change the verdict ----------------- *)
+Theorem Euclidean_relabel_iff : forall (f g : N -> N) profile,
+  (forall a, g (f a) = a) -> (Euclidean (map (map f) profile) <-> Euclidean profile).
+Proof. exact Proofs.Euclid.Euclidean_relabel_iff. Qed.
+Print Assumptions Euclidean_relabel_iff.
 
 (* ---- clause 1: an exact reference for "answers True exactly when ..." ------------------------------------- *)
 (* Fourier-Motzkin elimination decides strict homogeneous linear systems over Q (constraint c: eval c env < 0) *)
